@@ -96,3 +96,72 @@ def real_mesh(et, coords, connect):
 def two_element_mesh(et, face=0, affine="default"):
     coords, connect = two_element_patch(et, face, affine)
     return real_mesh(et, coords, connect)
+
+
+# ---------------------------------------------------------------- star patches (one interior vertex node)
+
+def _star_maps(et):
+    """(list of d reflections fixing vertex v0, orientation-reversing symmetry of the reference element fixing v0)."""
+    t = _topo(et)
+    if t == "SEG":
+        # vertex r = -1 ; reflection r -> -2 - r ; symmetry none needed in 1-D (handled by re-orienting)
+        return [lambda p: [-2 - p[0]]], None
+    if t == "TRI":
+        return [lambda p: [-p[0], p[1]], lambda p: [p[0], -p[1]]], (lambda p: [p[1], p[0]])
+    if t == "QUAD":
+        return [lambda p: [-2 - p[0], p[1]], lambda p: [p[0], -2 - p[1]]], (lambda p: [p[1], p[0]])
+    if t == "TETRA":
+        return [lambda p: [-p[0], p[1], p[2]], lambda p: [p[0], -p[1], p[2]], lambda p: [p[0], p[1], -p[2]]], (lambda p: [p[1], p[0], p[2]])
+    if t == "HEXA":
+        return [lambda p: [-2 - p[0], p[1], p[2]], lambda p: [p[0], -2 - p[1], p[2]], lambda p: [p[0], p[1], -2 - p[2]]], (lambda p: [p[1], p[0], p[2]])
+    if t == "PRISM":
+        return [lambda p: [-p[0], p[1], p[2]], lambda p: [p[0], -p[1], p[2]], lambda p: [p[0], p[1], -2 - p[2]]], (lambda p: [p[1], p[0], p[2]])
+    raise ValueError(et)
+
+
+def star_patch(et, affine="default"):
+    """2^dim elements around one vertex of the reference element (an interior node of the patch)."""
+    import itertools
+    ref = ref_nodes(et)
+    dim = len(ref[0])
+    refls, sym = _star_maps(et)
+    coords, index, connect = [], {}, []
+    for subset in itertools.product([0, 1], repeat=len(refls)):
+        odd = sum(subset) % 2 == 1
+        el = []
+        for p in ref:
+            q = list(p)
+            if odd:
+                if sym is not None:
+                    q = sym(q)
+                else:
+                    q = [-q[0]]          # 1-D: reverse the reference segment
+            for k, use in enumerate(subset):
+                if use:
+                    q = refls[k](q)
+            el.append(q)
+        if dim == 1 and odd:
+            pass
+        row = []
+        for q in el:
+            k = tuple(q)
+            if k not in index:
+                index[k] = len(coords)
+                coords.append(list(q))
+            row.append(index[k])
+        connect.append(row)
+    if affine == "default":
+        affine = DEFAULT_AFFINE[dim]
+    out = []
+    for p in coords:
+        if affine is not None:
+            A, b = affine
+            q = [sum(A[i][j] * p[j] for j in range(dim)) + b[i] for i in range(dim)]
+        else:
+            q = list(p)
+        out.append(q + [F(0)] * (3 - dim))
+    return out, connect
+
+
+def boundary_nodes(et, coords_ref_patch_connect):
+    raise NotImplementedError
